@@ -398,14 +398,14 @@ def _parts(thorough, seed):
     none = ["none", 0]
     cam = [
         # label, args(periods, dyns, delays, check_period, allow_stop, gaps, seed, first_delays), depth, split
-        ("cam_timing", ([20, 100, 250, 1000], D(none, ["s", 2], ["s", 0]), [0, 50, 99], None, True, [1200], seed), 7 if thorough else 5, 2),
+        ("cam_timing", ([20, 100, 250, 1000], D(none, ["s", 2], ["s", 0]), [0, 50, 99], None, True, [1200], seed), 8 if thorough else 5, 2),
         ("cam_thr_heading", ([100], D(none, *[["h", i] for i in range(5)]), [0], None, False, [], seed), 7 if thorough else 6, 2),
         ("cam_thr_speed", ([100], D(none, *[["s", i] for i in range(4)]), [0], None, False, [], seed), 7 if thorough else 6, 2),
         ("cam_thr_position", ([100], D(none, *[["p", i] for i in range(4)]), [0], None, False, [], seed), 7 if thorough else 6, 2),
         ("cam_missing", ([100, 1000], D(none, *[["miss", f] for f in MISSABLE], ["s", 2], ["h", 3]), [0], None, True, [], seed),
          6 if thorough else 4, 2),
         ("cam_fast_lf", ([100], D(["s", 2], ["s", 0], none), [0], None, False, [], seed), 14 if thorough else 10, 2),
-        ("cam_check50", ([20, 100], D(none, ["s", 2], ["s", 0], ["h", 3], ["h", 1]), [0, 49], 50, True, [], seed), 8 if thorough else 6, 2),
+        ("cam_check50", ([20, 100], D(none, ["s", 2], ["s", 0], ["h", 3], ["h", 1]), [0, 49], 50, True, [], seed), 9 if thorough else 6, 2),
         ("cam_steady", ([1000, 100], D(none), [0], None, False, [], seed, [0]), 400, 1),
     ]
     if thorough:
@@ -415,9 +415,9 @@ def _parts(thorough, seed):
         cam.append(("cam_check20", ([20, 100], D(none, ["s", 2], ["s", 0]), [0, 19], 20, False, [], seed), 9, 2))
     vam = [
         # label, args(periods, dyns, gaps, clustering, seed), depth, split
-        ("vam_timing", ([20, 50, 100, 250, 1000], D(none), [1900, 6000, 65500], False, seed), 8 if thorough else 6, 2),
+        ("vam_timing", ([20, 50, 100, 250, 1000], D(none), [1900, 6000, 65500], False, seed), 9 if thorough else 6, 2),
         ("vam_dynamics", ([20, 100], D(none, ["s", 1], ["s", 2], ["s", 0], ["h", 2], ["h", 3], ["h", 1], ["p", 2], ["p", 0]), [], False, seed),
-         6 if thorough else 4, 2),
+         7 if thorough else 4, 2),
         ("vam_missing", ([20, 100, 1000], D(none, *[["miss", f] for f in MISSABLE]), [], False, seed), 5 if thorough else 4, 1),
         ("vam_idle", ([50, 100, 1000], D(none, ["s", 2], ["s", 0]), [2500], True, seed), 7 if thorough else 6, 2),
         ("vam_steady", ([1000, 100], D(none), [], False, seed), 400, 1),
@@ -446,6 +446,18 @@ def _gdt_lattices(ctx, pool, thorough):
         for rec in bad:
             ctx.violation(dict(rec, part="gdt_cycle"), replay=dict(call="gdt", unix_ms=rec["unix_ms"], micro=rec["micro"]))
     ctx.parts["gdt_cycle"] = dict(evaluations=gn, unix_ms=[base, base + span - 1], micros=micros)
+    # (a2) the binade boundaries of the float seconds clock inside the service life of the stack: 2**31 s (2038-01-19) and
+    # 2**41 ms (2039-09-07) - between them seconds*1000 is no longer exact for millisecond time stamps
+    half = 1024 if not thorough else 8192
+    edges = [2 ** 31 * 1000, 2 ** 41]
+    jobs = [(e - half, e + half, [0]) for e in edges]
+    wn = 0
+    for n, bad in pool.imap_unordered(_gdt_chunk, jobs):
+        wn += n
+        for rec in bad:
+            ctx.violation(dict(rec, part="gdt_binade_edges"), replay=dict(call="gdt", unix_ms=rec["unix_ms"], micro=rec["micro"]))
+    ctx.parts["gdt_binade_edges"] = dict(evaluations=wn, edges_unix_ms=edges, half_width_ms=half)
+    gn += wn
     # (b) whole pipeline around multiples of 65 536 ms, incl. sub-millisecond clock fractions
     cyc = [1, k0 - 1, k0, k0 + 1, k0 + 1000, 2 ** 24, 2 ** 25 - 1] if not thorough else \
         [1, 2, k0 - 1, k0, k0 + 1, k0 + 2, k0 + 1000, k0 + 100000, 2 ** 24, 2 ** 25 - 1]
